@@ -241,12 +241,14 @@ func (w *World) rawFunc(spec FuncSpec) interface{} {
 		}
 		if spec.HasErr {
 			if spec.Fails {
-				e := w.failErr(spec.ID)
-				if spec.TypedNil {
+				var e error
+				switch {
+				case spec.TypedNil:
 					e = w.typedNilErr(spec.ID)
-				}
-				if spec.UnsatErr {
+				case spec.UnsatErr:
 					e = w.unsatErr(spec.ID)
+				default:
+					e = w.failErr(spec.ID)
 				}
 				res = append(res, reflect.ValueOf(&e).Elem())
 			} else {
